@@ -13,6 +13,12 @@ VERUS_UNITS = {
                     "thorough": [("std", ["std", "alloc", "half"]), ("alloc", ["alloc", "half"]), ("none", ["half"])]},
         # only C20 needs every configuration; other properties use the first one
     },
+    "encoder": {
+        "path": "units/verus/encoder.vx",
+        "props": ["C03", "C13", "C01", "C07", "C20"],
+        "configs": {"quick": [("std", ["std", "alloc", "half"])],
+                    "thorough": [("std", ["std", "alloc", "half"])]},
+    },
 }
 
 # ---- Kani: per crate, what is injected into the scratch copy before any harness runs
